@@ -166,6 +166,8 @@ func runC04(c *runCtx) {
 		var staging []map[string]any
 		staging = append(staging, opJSONWire(cop))
 		predicted := []opView{}
+		// every operation as it was when the editing API handed it over (id, payload in the order given)
+		submitted := viewOps([]bug.Operation{cop})
 		commit := func() {
 			predicted = viewOps(b.Operations())
 			idBefore := b.Id()
@@ -181,9 +183,16 @@ func runC04(c *runCtx) {
 		n := r.rangeInt(0, c.pick(14, 40))
 		for k := 0; k < n; k++ {
 			op, isC, tag := g.next()
+			submitted = append(submitted, viewOps([]bug.Operation{op})...)
 			b.Append(op)
 			g.record(op, isC)
 			staging = append(staging, opJSONWire(op))
+			if r.chance(1, 3) {
+				// the cache compiles after every edit, before anything is committed: looking at a bug
+				// does not change what is stored
+				b.Compile()
+				c.count("compile-before-commit")
+			}
 			c.count("op=" + strings.Split(tag, ":")[0])
 			if r.chance(1, 4) {
 				commit()
@@ -206,6 +215,8 @@ func runC04(c *runCtx) {
 			}
 			if d := diffViews(predicted, viewOps(b2.Operations())); d != "" {
 				c.violation(c.nCases, "C04/roundtrip", "read back ("+where+"): "+d, nil)
+			} else if d := diffViews(submitted, viewOps(b2.Operations())); d != "" {
+				c.violation(c.nCases, "C04/roundtrip", "read back ("+where+") differs from what the editing API was given: "+d, nil)
 			}
 			if err := b2.Validate(); err != nil {
 				c.violation(c.nCases, "C04/invalid-after-read", "the bug read back does not validate ("+where+"): "+err.Error(), nil)
